@@ -627,15 +627,23 @@ def _structure_simplicity_level(cls):
     return simplicity
 
 
+def _enum_lookup(field: Enum):
+    return (
+        getattr(field, "_enum_by_value")
+        if field.serialization_by_value
+        else getattr(field, "_enum_class")
+    )
+
+
 @lru_cache(maxsize=128)
 def _get_enum_mapping(cls):
     without_optionals = {
-        k: getattr(v, "_enum_class")
+        k: _enum_lookup(v)
         for k, v in cls.get_all_fields_by_name().items()
         if isinstance(v, Enum) and getattr(v, "_is_enum", False)
     }
     optionals =  {
-        k: getattr(_leading_option(v), "_enum_class")
+        k: _enum_lookup(_leading_option(v))
         for k, v in cls.get_all_fields_by_name().items()
         if isinstance(v, AnyOf)
         and getattr(v, "_is_optional", False)
